@@ -22,10 +22,16 @@ class ModeBasis(object):
         The grid on which the modes are defined.
     '''
     def __init__(self, transformation_matrix, grid=None):
+        # The first mode (if any) tells whether a list of sparse rows was given and may carry the grid.
+        # A sparse matrix is never indexed here (not every sparse format supports it).
+        first = None
+        if not scipy.sparse.issparse(transformation_matrix) and len(transformation_matrix) > 0:
+            first = transformation_matrix[0]
+
         if scipy.sparse.issparse(transformation_matrix):
             sparse = True
             is_list = False
-        elif scipy.sparse.issparse(transformation_matrix[0]):
+        elif scipy.sparse.issparse(first):
             sparse = np.all([transformation_matrix[i].shape[0] == 1 for i in range(len(transformation_matrix))])
             is_list = True
         else:
@@ -47,8 +53,8 @@ class ModeBasis(object):
 
         if grid is not None:
             self.grid = grid
-        elif hasattr(transformation_matrix[0], 'grid'):
-            self.grid = transformation_matrix[0].grid
+        elif hasattr(first, 'grid'):
+            self.grid = first.grid
         else:
             self.grid = None
 
